@@ -71,3 +71,19 @@ Theorem C02_walk_of_a_glob_yields_exactly_its_matches :
     filter (keeps prefix progs complete) (all_entries [] root).
 Proof. exact glob_walk_complete. Qed.
 Print Assumptions C02_walk_of_a_glob_yields_exactly_its_matches.
+
+(* globs with an invariant prefix (the walk starts below the directory given): the prefix components, the starting directory
+   and the translated depth window are part of the model; over a tree with valid, distinct sibling names, what the walk yields
+   are exactly the entries of the whole tree that lie at or below the prefix and that the complete program matches *)
+Theorem C02_prefixed_glob_walk_yields_exactly_its_matches :
+  forall orbit, (forall c d, In d (orbit c) -> d <> SEP) ->
+  forall t, lits_nosep t = true ->
+  forall complete : str -> bool, (forall w, complete w = true <-> sem orbit (encode t) w) ->
+  forall progs : list (name -> bool),
+    Forall2 (fun (pr : name -> bool) r => forall w, pr w = true <-> sem orbit r w) progs (component_programs t) ->
+  forall root prefix_text, names_valid root -> names_unique root ->
+    glob_walk_root root prefix_text = lookup root (split_components prefix_text) ->
+    yields (glob_walk root prefix_text 0 None progs complete []) =
+    filter (keeps (split_components prefix_text) progs complete) (below (split_components prefix_text) (all_entries [] root)).
+Proof. exact prefixed_glob_walk_complete. Qed.
+Print Assumptions C02_prefixed_glob_walk_yields_exactly_its_matches.
